@@ -435,6 +435,63 @@ impl std::io::Write for Collect<'_> {
     }
 }
 
+/// the two objects a caller can read a body from
+enum Body {
+    Whole(attohttpc::Response),
+    Split(attohttpc::ResponseReader),
+}
+
+impl Body {
+    fn reader(self) -> Box<dyn Read> {
+        match self {
+            Body::Whole(r) => Box::new(r),
+            Body::Split(r) => Box::new(r),
+        }
+    }
+    fn text_reader(self) -> Box<dyn Read> {
+        match self {
+            Body::Whole(r) => Box::new(r.text_reader()),
+            Body::Split(r) => Box::new(r.text_reader()),
+        }
+    }
+    fn bytes(self) -> attohttpc::Result<Vec<u8>> {
+        match self {
+            Body::Whole(r) => r.bytes(),
+            Body::Split(r) => r.bytes(),
+        }
+    }
+    fn write_to<W: std::io::Write>(self, w: W) -> attohttpc::Result<u64> {
+        match self {
+            Body::Whole(r) => r.write_to(w),
+            Body::Split(r) => r.write_to(w),
+        }
+    }
+    fn text(self) -> attohttpc::Result<String> {
+        match self {
+            Body::Whole(r) => r.text(),
+            Body::Split(r) => r.text(),
+        }
+    }
+    fn text_utf8(self) -> attohttpc::Result<String> {
+        match self {
+            Body::Whole(r) => r.text_utf8(),
+            Body::Split(r) => r.text_utf8(),
+        }
+    }
+    fn json<T: serde::de::DeserializeOwned>(self) -> attohttpc::Result<T> {
+        match self {
+            Body::Whole(r) => r.json(),
+            Body::Split(r) => r.json(),
+        }
+    }
+    fn json_utf8<T: serde::de::DeserializeOwned>(self) -> attohttpc::Result<T> {
+        match self {
+            Body::Whole(r) => r.json_utf8(),
+            Body::Split(r) => r.json_utf8(),
+        }
+    }
+}
+
 pub const TLS_HOST_NAME: &str = "secure.test";
 pub const TLS_HOST_IP: &str = "10.0.0.5";
 
@@ -475,9 +532,12 @@ pub fn caller_with(plan: &BodyPlan, stop_on_block: bool, tweak: impl FnOnce(atto
         }
     };
     o.status = resp.status().as_u16();
+    // one plan in four reads through the `ResponseReader` that `split()` hands out instead of the
+    // response itself (same methods, their own implementations)
+    let mut resp = if (plan.payload.len() + plan.wire.head_len) % 4 == 1 { Body::Split(resp.split().2) } else { Body::Whole(resp) };
     match &plan.read_mode {
         ReadMode::Sizes(sizes, _) => {
-            let mut resp: Box<dyn Read> = if plan.via_text_reader { Box::new(resp.text_reader()) } else { Box::new(resp) };
+            let mut resp: Box<dyn Read> = if plan.via_text_reader { resp.text_reader() } else { resp.reader() };
             let mut i = 0usize;
             let mut after_end = 0usize;
             let mut ended = false;
